@@ -183,6 +183,24 @@ def AnswersRequest (cfg : Config) (env : Env) (tbl : Table) (decodeFailCode : In
   (∀ req m args id, stageOf env tbl e = .run req m args → req.id = some id →
       r = (handlerResponse cfg (env.call m.name args) id).toJson)
 
+/-- value of the member named `k` (first occurrence) -/
+def member (kvs : List (String × Json)) (k : String) : Option Json :=
+  (kvs.find? (fun kv => kv.1 = k)).map (·.2)
+
+/-- A Request object written the ordinary way: no member name twice, and no member whose name
+merely case-folds onto `jsonrpc` / `method` / `params` / `id`. -/
+def PlainMembers (kvs : List (String × Json)) : Prop :=
+  (kvs.map (·.1)).Nodup ∧
+  ∀ kv ∈ kvs, fieldOf kv.1 ≠ none → kv.1 ∈ ["jsonrpc", "method", "params", "id"]
+
+/-- a `string` field read from an optional member: absent and `null` leave "", a string is
+taken, anything else is a type error -/
+def stringField : Option Json → Option String
+  | none => some ""
+  | some (.str s) => some s
+  | some .null => some ""
+  | some _ => none
+
 /-- optional parameters form a tail of the parameter list -/
 def OptionalTail : List Param → Prop
   | [] => True
